@@ -57,6 +57,7 @@ def run(v, workdir, replay):
     served = {}      # (file, case, height) -> event
     posted_meta = {}
     posted_rollup = {}
+    recon_by_case = {}
     for ev in events:
         k = ev.get("kind")
         key = (ev["_file"], ev.get("case"))
@@ -110,10 +111,37 @@ def run(v, workdir, replay):
         elif k == "case_done":
             v.evaluations += 1
             v.saw("pipeline_cases")
+            # completeness ("anything else found in the namespaces is ignored"): an acceptable block whose genuine rollup blob was
+            # posted must come out with exactly that data, whatever unverifiable blobs naming the same block were posted before it
+            for m in posted_meta.get(key, []):
+                if m["class"] != "honest":
+                    continue
+                s_ = served.get(key + (m["claimed_height"],))
+                if s_ is None or s_["hash"] != m["hash"] or s_["chain_id"] != m["claimed_chain_id"] or not has_quorum(s_["powers"], s_["entries"]):
+                    continue
+                # conductor may refuse a whole commit that carries any defective signature entry (stricter than the property needs, and
+                # allowed by it); completeness is only demanded for commits without defects
+                if any(not ((e[1] == "commit" and e[2] == "valid") or (e[1] in ("absent", "nil") and e[2] in ("empty", "none", "valid"))) for e in s_["entries"]):
+                    continue
+                rolls = posted_rollup.get(key, [])
+                genuine = [r for r in rolls if r["hash"] == m["hash"] and r["class"] == "honest" and r.get("is_target_rollup", True)]
+                if not genuine:
+                    continue
+                first_genuine = min(r["item"] for r in genuine)
+                hostile_before = [r["class"] for r in rolls if r["hash"] == m["hash"] and r["class"] != "honest" and r["item"] < first_genuine]
+                got = [r for r in recon_by_case.get(key, []) if r["hash"] == m["hash"]]
+                v.saw("acceptable_blocks_with_genuine_rollup_blob")
+                if hostile_before:
+                    v.saw("acceptable_blocks_with_unverifiable_blob_posted_before_the_genuine_one")
+                if not got or got[0]["txs"] != genuine[0]["txs"]:
+                    v.violate("C09/pipeline/genuine-rollup-data-suppressed" + ("/unverifiable-blob-posted-first" if hostile_before else ""),
+                              "an acceptable block whose genuine rollup blob was posted came out %s" % ("without that data" if got else "not at all"),
+                              {"metadata": m, "genuine": genuine[0], "posted_before": hostile_before, "reconstructed": got})
             if ev["junk"]:
                 v.saw("cases_with_junk_blobs")
         elif k == "reconstructed":
             v.saw("reconstructed_blocks")
+            recon_by_case.setdefault(key, []).append(ev)
             s = served.get(key + (ev["height"],))
             metas = [m for m in posted_meta.get(key, []) if m["hash"] == ev["hash"] and m["claimed_height"] == ev["height"]
                      and m["claimed_chain_id"] == ev["chain_id"]]
@@ -159,6 +187,8 @@ def run(v, workdir, replay):
     v.need("reconstructed_blocks", 100)
     v.need("honest_blocks_reconstructed", 50)
     v.need("cases_with_junk_blobs", 20)
+    v.need("acceptable_blocks_with_genuine_rollup_blob", 40)
+    v.need("acceptable_blocks_with_unverifiable_blob_posted_before_the_genuine_one", 10)
     for c in ("honest", "wrong_hash", "wrong_chain_id", "forged_block_same_height", "wrong_height", "unknown_height"):
         v.need("meta:" + c, 10)
     for c in ("honest", "tampered_tx", "appended_tx", "bad_proof", "wrong_block_hash", "relabelled_other_rollup", "data_of_other_block"):
